@@ -39,23 +39,23 @@ CHECKS = {
          "Exploration / statistical: 103 schedule configurations (ratio, finish, both, neither, zero; 1..50 loops and thousands of tiny loops; jammed stretches of fully rejected loops) with 2e4 (quick) / 6e5 (thorough) probes per loop; windows of loops are compared with the probability interval implied by the allowed temperature interval, Chernoff/KL bound < 1e-12 to flag.",
          "Temperature is inferred, resolution ~1.3/sqrt(n) per window; 'neither' pins only the first loop.",
          "DESIGN.md 5 C18"),
- "C19": ("trace monitor: size of every proposal's single-parameter move against every possible parent, under scripted rejection histories",
+ "C19": ("trace monitor: size of every proposal's single-parameter move against every possible parent, under scripted rejection histories; lean freeze-and-release runs of up to 1e9+ proposals measured against the last accepted vector",
          "Exploration: ~5k (quick) / ~240k (thorough) runs, ~30M proposals (quick): largest move in units of half the parameter range must not exceed max_step_size, for 0..100% rejection per loop, 1..50 loops, steps 1e-4..1, k = 1..24, and real states with the declared ranges.",
          "Measured against the most favourable possible parent (conservative).",
          "DESIGN.md 5 C19"),
- "C03": ("differential runtime monitor: PotentialState::score vs exhaustive lattice sum over every image within cutoff + metamorphic re-descriptions of one crystal",
+ "C03": ("differential runtime monitor: PotentialState::score vs exhaustive lattice sum over every image within cutoff + metamorphic re-descriptions of one crystal + state objects edited over histories",
          "Exploration: ~0.3M (quick) / ~19M (thorough) LJ states of all groups (circle, trimers) from strongly overlapping to dilute, each compared with an exhaustive per-molecule lattice sum (1e-9 of term magnitudes; 3% of the attractive sum for the uncut circle) and with equivalent descriptions (copy moved across a cell face, origin shifted by normaliser translations). One open known finding (images beyond the third shell inside the cutoff) is reported as KNOWN-FINDING and keyed by an oracle-computed predicate.",
          "The pair kernel is the library's LJ2::energy (decided by C13), cross-checked against the independent law for like particles.",
          "DESIGN.md 5 C03"),
- "C01": ("runtime monitor: library score vs exhaustive lattice-image overlap oracle on uniform, contact-bisected and optimiser-produced states (Spy) and CLI output files",
+ "C01": ("runtime monitor: library score vs exhaustive lattice-image overlap oracle on uniform, contact-bisected and optimiser-produced states (Spy), state objects edited over histories, and CLI output files",
          "Exploration: ~6M (quick) / ~200M (thorough) states - uniform, boundary-focused states bisected to first contact and probed just inside it, every stage result and sampled evaluations of real optimiser pipelines observed through a Spy state, and the CLI's JSON files - are re-examined by an oracle that enumerates every lattice image that can be within reach (from cell heights) and measures penetration by separating axes / disc distance; witnesses are re-confirmed by polygon clipping. Held on the states produced; the thin failing region is sampled, not covered.",
          "Placements are read from cartesian_positions() (their correctness is C04/C14/C15). Convex polygons and unions of discs only.",
          "DESIGN.md 5 C01"),
- "C02": ("differential runtime monitor: Shape::area / Cell2::area / State::score vs shoelace, exact union-of-discs (Green's theorem, grid self-tested) and |A x B| on oracle-valid packings",
+ "C02": ("differential runtime monitor: Shape::area / Cell2::area / State::score vs shoelace, exact union-of-discs (Green's theorem, grid self-tested) and |A x B| on oracle-valid packings, incl. state objects edited over histories (shape replaced, clone, JSON) and ranking through the states' own Ord",
          "Exploration: ~0.25M (quick) / ~25M (thorough) shapes and ~0.1M / ~4M oracle-valid states (as generated and shrunk to first contact); score must equal copies x true area / cell area to 1e-9 and stay <= 1. One open known finding (three discs sharing a point) is reported as KNOWN-FINDING, any other disagreement is a violation.",
          "The union-area oracle is checked against a 1200x1200 grid count at start-up (a disagreement makes the run inconclusive).",
          "DESIGN.md 5 C02"),
- "C04": ("runtime monitor: placed point sets of hard and LJ states, incl. after chained optimisation via clone(), mapped by every ITA operation in Cartesian form",
+ "C04": ("runtime monitor: placed point sets of hard and LJ states, incl. after chained optimisation via clone() and along histories of edits of one state object, mapped by every ITA operation in Cartesian form",
          "Exploration: ~0.3M (quick) / ~25M (thorough) states with chiral test shapes (handedness-sensitive) and the CLI's shapes, plus thousands of states after 1-3 chained optimisation stages read back through JSON; every operation must be orthogonal for the current cell and map the set of placed shapes onto itself modulo the lattice.",
          "Trusts the ITA table (C16) and the lattice model; placements are taken from cartesian_positions().",
          "DESIGN.md 5 C04"),
@@ -68,19 +68,19 @@ CHECKS = {
          "For unlike particles only symmetry, cutoff behaviour and distance-dependence are required (the property fixes no mixing rule).",
          "DESIGN.md 5 C13"),
  # id: (technique, level text, level note, design_ref)
- "C14": ("differential runtime monitor: Cell2 public methods on JSON-deserialised cells vs independent lattice model",
+ "C14": ("differential runtime monitor: Cell2 public methods on JSON-deserialised cells vs independent lattice model; chains of cells sharing a, b, angle or area bit for bit; iterator-protocol monitor on periodic_images",
          "Exploration: every Cell2 view (to_cartesian*, periodic_images as a set, area, centre, corners) is compared with A=(a,0), B=(b cos t, b sin t) on ~0.8M (quick) / ~100M (thorough) random and special cells, placements and shell counts. Holds on the executions produced; the real-number quantifier is sampled.",
          "Trusts the 30-line lattice model in harness/src/oracle/lattice.rs and f64 arithmetic to 1e-12 relative.",
          "DESIGN.md 5 C14"),
- "C15": ("runtime monitor on relative_positions() of JSON-built states vs ITA operations, incl. ulp-level boundary inputs and set/reset/sample histories on one reused state",
+ "C15": ("runtime monitor on relative_positions() of JSON-built states vs ITA operations, incl. ulp-level boundary inputs, set/reset/sample histories on one reused state, and an iterator-protocol monitor (next/nth/skip/step_by/count/last vs the collected sequence)",
          "Exploration: placements of ~1.6M (quick) / ~190M (thorough) sites - uniform, exactly on faces and special positions, 1-4 ulps either side of +-1/2, denormal negatives - are matched one-to-one to the ITA operations, checked for canonical-cell membership and for invariance under whole-lattice shifts / 2pi turns.",
          "Trusts the ITA table (also checked by C16) and exact transport of doubles through serde_json::Value.",
          "DESIGN.md 5 C15"),
- "C16": ("exhaustive runtime enumeration of the parsed group tables against an independent ITA table",
-         "Finite and exhaustive: all 7 groups, all operations, all ordered pairs (closure, inverses), content counts, family and cell invariance, read through the same path the CLI uses.",
+ "C16": ("exhaustive runtime enumeration of the parsed group tables against an independent ITA table, repeated in fresh child processes at the end of random histories of user-defined groups",
+         "Finite and exhaustive: all 7 groups, all operations, all ordered pairs (closure, inverses), content counts, family and cell invariance, read through the same path the CLI uses; the same enumeration at the end of 32 (quick) / 640 (thorough) process histories in which user groups carrying built-in names are used first.",
          "Trusts the transcription of the ITA general positions in harness/src/oracle/groups.rs.",
          "DESIGN.md 5 C16"),
- "C17": ("grammar-enumerating + random-input runtime monitor on Transform2::from_operations under catch_unwind",
+ "C17": ("grammar-enumerating + random-input runtime monitor on Transform2::from_operations under catch_unwind, incl. every Unicode scalar value at 9 parser positions",
          "Exploration, exhaustive per component: every non-empty subset/order/sign of {x, y, p[/q]} terms under spacing/parenthesis formats is rendered from a structured description whose denoted map is known by construction and compared at 6 points; arbitrary strings (random bytes, unicode, 20k chars, division by zero) must return Ok/Err. ~0.3M strings quick, ~20M thorough.",
          "The reading of 'the grammar' (one constant per component, coefficients +-1, no whitespace outside the outer parentheses) is the harness's; panics are observed via catch_unwind.",
          "DESIGN.md 5 C17"),
